@@ -671,7 +671,14 @@ func (x *Exec) loopContract(fr *Frame, ord int) *LoopContract {
 
 // nameLookup resolves source-level variable names at a program point (block b, before its non-phi instrs).
 func (x *Exec) nameLookup(fr *Frame, st *State, b *ssa.BasicBlock) func(string) (EV, bool) {
+	return x.nameLookupSkip(fr, st, b, 0)
+}
+
+// nameLookupSkip: like nameLookup, but ignores the first `skip` loop-carried (phi) definitions of the name found on the
+// dominator chain: outer(rangeindex) in an inner loop names the index of the enclosing loop.
+func (x *Exec) nameLookupSkip(fr *Frame, st *State, b *ssa.BasicBlock, skip int) func(string) (EV, bool) {
 	return func(name string) (EV, bool) {
+		skipLeft := skip
 		// params
 		for i, p := range fr.fn.Params {
 			if p.Name() == name {
@@ -710,6 +717,10 @@ func (x *Exec) nameLookup(fr *Frame, st *State, b *ssa.BasicBlock) func(string) 
 				switch ins := instrs[i].(type) {
 				case *ssa.Phi:
 					if ins.Comment == name {
+						if skipLeft > 0 {
+							skipLeft--
+							continue
+						}
 						if v, ok := fr.env[ins]; ok {
 							return EV{V: v, T: ins.Type()}, true
 						}
@@ -761,6 +772,21 @@ func (x *Exec) loopCtx(fr *Frame, b *ssa.BasicBlock, st *State, prove bool) *Eva
 		ec.names[k] = EV{V: v, T: x.ghostDecl[k]}
 	}
 	ec.lookup = x.nameLookup(fr, st, b)
+	ec.lookupOuter = x.nameLookupSkip(fr, st, b, 1)
+	ec.lookupAddr = func(name string) (*PtrV, bool) {
+		for blk := b; blk != nil; blk = blk.Idom() {
+			for _, ins := range blk.Instrs {
+				if a, ok := ins.(*ssa.Alloc); ok && a.Comment == name {
+					if v, ok := fr.env[a]; ok {
+						if pv, isP := v.(*PtrV); isP {
+							return pv, true
+						}
+					}
+				}
+			}
+		}
+		return nil, false
+	}
 	return ec
 }
 
